@@ -101,6 +101,9 @@ def draw_scenario(seed, i, kind=None, real_writers=False):
         p["prev_size"] = rng.randrange(1, 5000)
         # a slow or stalled server: some chunk arrives only after this many (virtual) seconds
         p["stalls"] = [[rng.choice([0, 0, 0, 0, 30, 400, 5000]) for _ in sizes] for sizes in p["bodies"]]
+        # network fault: the first attempt at this URL loses its connection before chunk k (None: never);
+        # the server ignores Range headers and always answers 200 with the full body
+        p["break_before"] = [rng.choice([None, None, None, 0, 1, 2]) for _ in urls]
     elif kind == "render_real":
         p["writer"] = rng.choice(["rl", "rl", "odf"])
         p["articles"] = rng.randint(1, 2)
@@ -130,6 +133,7 @@ class Scenario:
         self.out = os.path.join(root, "out")  # the watched directory
         import random
         self.crng = random.Random(p["content_seed"])
+        self.may_fail = set()  # labels whose producer step is scripted to fail
         self.published = {}  # label -> path
         self.prev = {}  # label -> bytes or None
         self.new = {}  # label -> expected content descriptor
@@ -318,6 +322,9 @@ class Scenario:
             self.published[label] = os.path.join(self.out, "images", unorganized.fs_escape(title))
             self.prev[label] = _blob(self.crng, self.p["prev_size"]) if (self.p["prev"] and i % 2 == 0) else None
             self.new[label] = self.url_bodies[u]
+            # a scripted connection loss makes this download fail legitimately: absent/previous is fine
+            if self.p.get("break_before", [None] * len(self.p["urls"]))[u] is not None:
+                self.may_fail.add(label)
 
     def produce_download_fetcher(self, tracer):
         import gevent
@@ -327,11 +334,17 @@ class Scenario:
         bodies = {url: (self.url_bodies[i], p["bodies"][i]) for i, url in enumerate(p["urls"])}
         stalls = {url: p.get("stalls", [[0] * len(s) for s in p["bodies"]])[i] for i, url in enumerate(p["urls"])}
 
+        import httpx
+        attempts = {}
+        breaks = {url: p.get("break_before", [None] * len(p["urls"]))[i] for i, url in enumerate(p["urls"])}
+
         class Resp:
             status_code = 200
+            headers = {}
 
-            def __init__(self, url):
+            def __init__(self, url, attempt):
                 self.url = url
+                self.attempt = attempt
 
             def raise_for_status(self):
                 pass
@@ -339,8 +352,10 @@ class Scenario:
             def iter_bytes(self, chunk_size=None):
                 body, sizes = bodies[self.url]
                 off = 0
-                for n, stall in zip(sizes, stalls[self.url]):
+                for k, (n, stall) in enumerate(zip(sizes, stalls[self.url])):
                     gevent.sleep(stall)  # the next chunk arrives later (virtual time): other downloads run
+                    if self.attempt == 1 and breaks[self.url] is not None and k == breaks[self.url]:
+                        raise httpx.ReadError("connection reset by peer (injected)")
                     yield body[off:off + n]
                     off += n
 
@@ -354,20 +369,46 @@ class Scenario:
             def __init__(self, url):
                 self.url = url
 
-            def stream(self, method, url):
+            def stream(self, method, url, **kw):
                 gevent.sleep(0)
-                return Resp(url)
+                attempts[url] = attempts.get(url, 0) + 1
+                return Resp(url, attempts[url])
 
         fetch._get_download_client = lambda url: Client(url)
         fetch._acquire_download_rate_limit = lambda url: None
         gevent.get_hub().handle_error = lambda *a: None  # failing downloads die quietly, like in a real fetch
-        fs = fetch.FsOutput.__new__(fetch.FsOutput)  # only get_imagepath is used
-        fs.path = self.out
-        fs.imgcount = 0
-        f = fetch.Fetcher.__new__(fetch.Fetcher)
-        f.fsout = fs
-        f.image_download_pool = gevent.pool.Pool(p["max_connections"])
-        f.pool = gevent.pool.Pool()
+        # a real Fetcher (its own __init__, pools and attributes) over a stand-in API and a
+        # stand-in output object: only the image path logic of FsOutput is used here
+        from mwlib.utils import conf
+        from . import wiki as _wiki
+        if not conf.config.has_section("fetch"):
+            conf.config.add_section("fetch")
+        conf.config["fetch"]["max_connections"] = str(p["max_connections"])
+
+        class Api:
+            apiurl = baseurl = "http://wiki.example.org/w/api.php"
+            api_request_limit = 15
+            qccount = 0
+
+            def report(self):
+                pass
+
+            def get_siteinfo(self):
+                return _wiki.siteinfo("en")
+
+            def idle(self):
+                return True
+
+        class Out(fetch.FsOutput):
+            def __init__(self, path):  # no databases, no revision file: images only
+                self.path = path
+                self.imgcount = 0
+                self.seen = {}
+
+            def write_siteinfo(self, siteinfo):
+                pass
+
+        f = fetch.Fetcher(Api(), Out(self.out), pages=[], licenses=[])
         # virtual time: gevent's own timers (sleep, Timeout, wait(timeout)) fire when the
         # discrete-event clock below reaches them; nothing waits for the real clock
         import heapq
@@ -620,7 +661,8 @@ class Scenario:
                 continue  # status files of the other producers: any complete JSON is fine
             if st[0] == "absent" and self.prev.get(label) is not None:
                 return ("A-vanished", f"{where}: the previous version is gone and no new one is there")
-            if completed and ref is not None and not ref["info"].get("raised") and st[0] != "new" and label != "status":
+            if completed and ref is not None and not ref["info"].get("raised") and st[0] != "new" and label != "status" \
+                    and label not in self.may_fail:
                 return ("A-final", f"{where}: producer finished but the published file is {st[0]}")
         return None
 
@@ -632,6 +674,7 @@ def applicable_kinds(op):
         kinds.append("eio_short")
     if name in ("write", "os.write"):
         kinds.append("disk_full")
+        kinds.append("disk_full_transient")
     if name in ("close", "os.close", "rename", "replace"):
         kinds.append("eio_after")
     return kinds
